@@ -52,11 +52,11 @@ CHECK = {
     "bounds": {
         "quick": {"surface_instances": 20807, "sq_family": "3^3 x 3^3 x 3", "gq_family": "3^6 x 2^3 x 3",
                   "lattice_simple": "5^3 + 6 far + 16 on + 12 near + 8 tangent", "lattice_sq": "4^3+2+8",
-                  "lattice_gq": "3^3+2+6", "transforms": 128, "xform_surfaces": 3554, "involutes": 324,
+                  "lattice_gq": "3^3+2+6", "transforms": 128, "xform_surfaces": 3552, "involutes": 324,
                   "xform_near_rings": "2^-12, 2^-24", "make_permutation": "3 axes x 11 quarter-turn counts"},
         "thorough": {"surface_instances": 73672, "sq_family": "5^3 x 3^3 x 4", "gq_family": "3^10",
                      "lattice_simple": "7^3 + 10 far + 40 on + 24 near + 16 tangent", "lattice_sq": "5^3+6+16",
-                     "lattice_gq": "4^3+4+10", "transforms": 132, "xform_surfaces": 21144,
+                     "lattice_gq": "4^3+4+10", "transforms": 132, "xform_surfaces": 21142,
                      "involutes": 1620, "xform_near_rings": "2^-12, 2^-24",
                      "make_permutation": "3 axes x 11 quarter-turn counts"},
     },
